@@ -599,7 +599,7 @@ package flags
 //@ axiom manual wf_option: forall o *Option :: o != nil ==> o.group != nil
 
 //@ func (option *Option) LongNameWithNamespace() (r string)
-//@   props C01 C07 C08 C13 C16 C04
+//@   props C01 C07 C08 C13 C16 C19 C04
 //@   requires option != nil
 //@   requires use(wf_option, option)
 //@   loop 1 invariant g != nil && use(wf_group, g) && unfold(parserOf(g)) && parserOf(g) == parserOf(option.group)
@@ -810,7 +810,7 @@ package flags
 //@   assigns option.isSet, option.isSetDefault, option.preventDefault, option.clearReferenceBeforeSet
 
 //@ func (option *Option) EnvKeyWithNamespace() (r string)
-//@   props C05 C16 C04
+//@   props C05 C16 C19 C04
 //@   pure
 //@   requires option != nil
 //@   requires use(wf_option, option)
@@ -1012,8 +1012,13 @@ package flags
 //@   traced
 //@   requires reader != nil && ncalls(bufio.Reader.ReadLine) <= readBound(reader)
 //@   loop 1 invariant ncalls(bufio.Reader.ReadLine) <= readBound(reader)
+//@   loop 1 invariant[C14] forall(k, old(ncalls(bufio.Reader.ReadLine)), ncalls(bufio.Reader.ReadLine), callres(bufio.Reader.ReadLine, k, 1) && callres(bufio.Reader.ReadLine, k, 2) == nil)
+//@   loop 1 invariant[C14] ncalls(bufio.Reader.ReadLine) == old(ncalls(bufio.Reader.ReadLine)) ==> isnil(line)
 //@   loop 1 decreases readBound(reader) - ncalls(bufio.Reader.ReadLine)
 //@   ensures[C14] err != nil ==> s == ""
+//@   ensures[C14] err == nil ==> !callres(bufio.Reader.ReadLine, ncalls(bufio.Reader.ReadLine) - 1, 1) && forall(k, old(ncalls(bufio.Reader.ReadLine)), ncalls(bufio.Reader.ReadLine) - 1, callres(bufio.Reader.ReadLine, k, 1))
+//@   ensures[C14] err == nil && ncalls(bufio.Reader.ReadLine) == old(ncalls(bufio.Reader.ReadLine)) + 1 ==> s == string(callres(bufio.Reader.ReadLine, old(ncalls(bufio.Reader.ReadLine)), 0))
+//@   ensures[C14] err != nil ==> err == callres(bufio.Reader.ReadLine, ncalls(bufio.Reader.ReadLine) - 1, 2)
 //@   ensures[C14] ncalls(bufio.Reader.ReadLine) > old(ncalls(bufio.Reader.ReadLine)) && ncalls(bufio.Reader.ReadLine) <= readBound(reader)
 //@   ensures !is(err, *Error) && !is(err, *IniError)
 
@@ -1183,8 +1188,25 @@ package flags
 
 // (a custom Unmarshaler is trusted not to answer with a typed-nil *Error nor
 // with the parser's own "unknown flag" error)
-//@ assumed func convertUnmarshal(val string, retval reflect.Value) (ok bool, err error)
+// Custom unmarshalling: when the value's own UnmarshalFlag is asked, its
+// verdict - error included - is what comes back (C11: accepted exactly or
+// rejected).  "pure": the search for an Unmarshaler over value / address /
+// interface content depends only on the value's type and addressability.
+//@ assumed func Unmarshaler.UnmarshalFlag(u Unmarshaler, value string) (err error)
+//@   traced
+//@   ensures is(err, *Error) ==> as(err, *Error) != nil
+//@   ensures !isTyped(err, ErrUnknownFlag)
+//@ assumed func reflect.Type.NumMethod(t reflect.Type) (n int)
 //@   pure
+//@ assumed func reflect.Value.CanInterface(v reflect.Value) (r bool)
+//@   pure
+//@ func convertUnmarshal(val string, retval reflect.Value) (ok bool, err error)
+//@   props C11 C01 C04
+//@   pure
+//@   let u0 := ncalls(Unmarshaler.UnmarshalFlag)
+//@   ensures[C11,C01] ncalls(Unmarshaler.UnmarshalFlag) == u0 + 1 ==> ok && err == callres(Unmarshaler.UnmarshalFlag, u0, 0) && callarg(Unmarshaler.UnmarshalFlag, u0, 1) == val
+//@   ensures[C11,C01] retval.Type().NumMethod() > 0 && retval.CanInterface() && is(retval.Interface(), Unmarshaler) ==> ncalls(Unmarshaler.UnmarshalFlag) == u0 + 1
+//@   ensures ncalls(Unmarshaler.UnmarshalFlag) <= u0 + 1
 //@   ensures is(err, *Error) ==> as(err, *Error) != nil
 //@   ensures !isTyped(err, ErrUnknownFlag)
 
